@@ -86,9 +86,9 @@ func c15HostGen(g *hx.Gen) {
 		g.Case(c15Q("exam" + string(c) + "ple.com"))
 		g.Case(c15Q("example.com" + string(c)))
 	}
-	N := 4000
+	N := 15000
 	if g.Thorough() {
-		N = 120000
+		N = 400000
 	}
 	for i := 0; i < N; i++ {
 		g.Case(c15Q(c15RandHost(g.Rng)))
@@ -301,9 +301,9 @@ func c15QualifyGen(g *hx.Gen) {
 			}
 		}
 	}
-	N := 3000
+	N := 12000
 	if g.Thorough() {
-		N = 100000
+		N = 300000
 	}
 	for i := 0; i < N; i++ {
 		r := g.Rng
@@ -374,9 +374,9 @@ func c15AddrGen(g *hx.Gen) {
 		"a#b", "a?b", "a%41", "user@host", "a b", "\x7f", "é.com"} {
 		g.Case(c15Q(a))
 	}
-	N := 3000
+	N := 12000
 	if g.Thorough() {
-		N = 100000
+		N = 300000
 	}
 	const alpha = "abcXYZ019.:/[]*-_~!$&'()+,;=<>\"\\^`{|}"
 	for i := 0; i < N; i++ {
@@ -437,15 +437,16 @@ var c15TLSVariants = []string{"none", "off", "email", "self", "manual", "block",
 
 // hosts by class for the site-set stream (all of them valid Casketfile tokens inside the address domain)
 var c15SiteHosts = []string{"example.com", "*.example.com", "203.0.113.7", "[2001:db8::1]", "localhost", "127.0.0.1", "[::1]", "10.0.0.1", "192.168.1.5", "[fd00::1]",
-	"a.localhost", "printer.local", "foo.test", "foo.example", "foo.invalid", "x.home.arpa", "127.example.com", "", "EXAMPLE.com"}
+	"a.localhost", "printer.local", "foo.test", "foo.example", "foo.invalid", "x.home.arpa", "127.example.com", "", "EXAMPLE.com",
+	"X.Home.Arpa", "Printer.LOCAL", "LocalHost", "A.LOCALHOST", "[FD00::1]", "[0:0::1]", "[::ffff:10.0.0.1]"}
 
 var c15SiteBinds = []string{"", "127.0.0.1", "::1", "10.0.0.1", "203.0.113.7", "0.0.0.0", "localhost", "::ffff:127.0.0.1", "LOCALHOST"}
 
 func c15SitesGen(g *hx.Gen) {
 	schemes := []string{"", "http", "https"}
 	ports := []string{"", "80", "443", "8080"}
-	// 1 site: scheme x host class x port x tls variant (x bind for the default tls)
-	for _, s := range schemes {
+	// 1 site: scheme x host class x port x tls variant (x bind for the default tls); one odd scheme too
+	for _, s := range []string{"", "http", "https", "ftp"} {
 		for _, h := range c15SiteHosts {
 			for _, p := range ports {
 				if h == "" && p == "" && s == "" {
@@ -517,9 +518,9 @@ func c15SitesGen(g *hx.Gen) {
 		g.Case(c15Q("http://a.example.com") + "," + c15Q("b.example.com") + "||" + v + ";" + c15Q("a.example.com") + "||none")
 	}
 	// seeded random: 1..5 sites over a small host pool, everything random
-	N := 2500
+	N := 8000
 	if g.Thorough() {
-		N = 60000
+		N = 150000
 	}
 	for i := 0; i < N; i++ {
 		r := g.Rng
@@ -569,9 +570,9 @@ func c15RedirectGen(g *hx.Gen) {
 			}
 		}
 	}
-	N := 3000
+	N := 12000
 	if g.Thorough() {
-		N = 100000
+		N = 300000
 	}
 	const alpha = "abcXYZ019/%?#;=&+:@!$'()*,[]<>\"{}|\\^`~-_. \xc3\xa9\x01\x7f"
 	for i := 0; i < N; i++ {
